@@ -37,7 +37,7 @@ RULE = (
     "parameters, one-point domains, 0-2 constants, key order different from sorted order; small finite spaces for "
     "exhaustion) x points_to_evaluate (None, [], partial, full, duplicates incl. duplicates by imputation, values given "
     "in another numeric type) x allow_duplicates x history (1-4 workers, arrival policy, 5-60 events, failure plan; "
-    "exhaustion cases up to 150 events). Distinct = digest of (kind, sequence of suggestion tags "
+    "exhaustion cases up to 150 events); 780 histories per quick run, 16 x in the thorough tier. Distinct = digest of (kind, sequence of suggestion tags "
     "initial/new/explore/resume/None with the status of repeated trials, space shape); non-trivial = at least one "
     "suggestion after the initial points."
 )
@@ -286,6 +286,27 @@ def space_size(desc):
             return None
         size *= n
     return size
+
+
+def _gen_format(desc):
+    """The same space in the description format of stv.gen (None if not expressible): used to cross-check space_size
+    against gen.space_size."""
+    out = {}
+    for k, P in desc.items():
+        c = P["ctor"]
+        if c == CONST:
+            out[k] = ["const", P["value"]]
+        elif c in ("randint", "lograndint"):
+            out[k] = [c, P["lower"], P["upper"]]
+        elif c in ("uniform", "loguniform") and P["lower"] < P["upper"]:
+            out[k] = [c, P["lower"], P["upper"]]
+        elif c in ("choice", "ordinal_equal", "ordinal_nn", "ordinal_nnlog") and len(set(P["categories"])) == len(P["categories"]):
+            out[k] = ["choice", list(P["categories"])]
+        elif c in ("finrange", "logfinrange") and len(set(c07._ref_values(P)[0])) == P["size"]:
+            out[k] = [c, P["lower"], P["upper"], P["size"]]
+        else:
+            return None
+    return out
 
 
 def gen_space(rng, profile):
@@ -873,15 +894,16 @@ class Oracle:
         return out
 
     def gkey(self, t):
-        """Grid points and initial points are compared under the library's documented equality of configurations:
-        exact for discrete values, 7 significant digits (Float.match_string) for float values."""
+        """An initial point and a grid point are the same configuration under the library's documented equality:
+        exact for discrete values, 7 significant digits (Float.match_string) for float values. Only used to decide
+        which grid points count as already suggested initial points; repetitions inside the grid are exact."""
         return tuple(f"{v:.6e}" if fl and isinstance(v, float) else v for v, fl in zip(t, self._float_dim))
 
     def grid_new(self, t, cfg, is_initial, earlier):
         o = self.o
         if is_initial:
             return
-        self.grid_seq.append(self.gkey(t))
+        self.grid_seq.append(t)
         if not self.grid["allow_duplicates"]:
             o.count("decided:no_repeat")
             if earlier:
@@ -926,23 +948,32 @@ class Oracle:
                     return None
         return V
 
-    def _first_pass_ok(self, block, V, init_tpls, label="first_pass"):
+    def _grid_excluded(self, V, init_tpls):
+        """Points of the product that count as already suggested initial points."""
+        import itertools
+
         total = 1
         for s in V:
             total *= len(s)
+        if not init_tpls or total > 5000:
+            return total, set()
+        keys = {self.gkey(t) for t in init_tpls}
+        return total, {g for g in itertools.product(*[sorted(s, key=repr) for s in V]) if self.gkey(g) in keys}
+
+    def _first_pass_ok(self, block, V, init_tpls, label="first_pass"):
+        total, excluded = self._grid_excluded(V, init_tpls)
         bs = set(block)
         self.o.count("decided:grid_product")
-        on_grid_init = {t for t in init_tpls if all(t[i] in V[i] for i in range(len(V)))}
         detail = {"n_suggested": len(block), "distinct": len(bs), "product_size": total,
-                  "initial_points_on_grid": len(on_grid_init),
+                  "initial_points_on_grid": len(excluded),
                   "values_per_dim": {k: sorted(V[i], key=repr)[:12] for i, k in enumerate(self.hp)}}
         if len(bs) != len(block):
             self.viol("grid_once", f"{self.kind}:{label}:point_twice_in_one_pass{self.grid_sfx}", detail)
             return None
-        if bs & on_grid_init:
+        if bs & excluded:
             self.viol("grid_once", f"{self.kind}:{label}:initial_point_suggested_again", detail)
             return None
-        expected = total - len(on_grid_init)
+        expected = total - len(excluded)
         if len(bs) != expected:
             how = "points_missing" if len(bs) < expected else "points_outside_product"
             self.viol("grid_once", f"{self.kind}:{label}:{how}", detail)
@@ -950,7 +981,7 @@ class Oracle:
         return total
 
     def _init_tpls(self):
-        return [self.gkey(tuple(c[k] for k in self.hp)) for c, _ in (self.ref or [])][: self.n_fresh]
+        return [tuple(c[k] for k in self.hp) for c, _ in (self.ref or [])][: self.n_fresh]
 
     def grid_none(self):
         o = self.o
@@ -984,11 +1015,8 @@ class Oracle:
         V = self._grid_values(seq, init_tpls, "cycle")
         if V is None:
             return
-        total = 1
-        for s in V:
-            total *= len(s)
-        on_grid_init = {t for t in init_tpls if all(t[i] in V[i] for i in range(len(V)))}
-        L1 = total - len(on_grid_init)
+        total, excluded = self._grid_excluded(V, init_tpls)
+        L1 = total - len(excluded)
         if self._first_pass_ok(seq[:L1], V, init_tpls) is None:
             return
         self.o.count("exhausted_grids")
@@ -1520,6 +1548,11 @@ def run_case(spec):
             orc, vt = run_scheduler_case(spec, p, o)
     for c, m, d in contract_viol:
         orc.viol(c, m, d)
+    gdesc = _gen_format(orc.desc)
+    if gdesc is not None:
+        o.count("space_size_crosschecked_with_gen")
+        if gen.space_size(gdesc) != orc.size:
+            o.inconclusive("space_size_differs_from_gen_space_size")
     shape = sorted((P["ctor"], (dom_count(P) or -1) if P["ctor"] != CONST else 0) for P in orc.desc.values())
     o.set_sig((p["kind"], orc.tags, shape, p["allow_duplicates"]), nontrivial=orc.post_initial > 0)
     o.sample = {
